@@ -270,10 +270,13 @@ func (s *serverSocket) onAck(header *parser.PacketHeader, decode parser.Decode) 
 }
 
 func (s *serverSocket) Join(room ...Room) {
+	// `joinMu` is held while joining: when the socket is closed, `join` is replaced (under `joinMu`)
+	// by a function that does nothing, and after that the socket leaves all of its rooms.
+	// A Join that is in progress at that moment must be over by then, otherwise the closed socket
+	// would stay in the room forever.
 	s.joinMu.Lock()
-	join := s.join
-	s.joinMu.Unlock()
-	join(room...)
+	defer s.joinMu.Unlock()
+	s.join(room...)
 }
 
 func (s *serverSocket) Leave(room Room) {
